@@ -13,6 +13,8 @@ import traceback
 from . import build as vbuild
 
 VERIF = vbuild.VERIF
+# mutant / self-test runs write their evidence and replays elsewhere
+OUT = os.environ.get("VERIF_OUT", VERIF)
 NPROC = int(os.environ.get("VERIF_JOBS", "16"))
 KNOWN_FILE = os.path.join(VERIF, "known_findings.json")
 
@@ -131,7 +133,7 @@ def excluded_classes(prop):
 
 
 def write_replay(prop, violation):
-    d = os.path.join(VERIF, "replays", prop)
+    d = os.path.join(OUT, "replays", prop)
     os.makedirs(d, exist_ok=True)
     blob = json.dumps(violation, sort_keys=True, default=str)
     dig = hashlib.sha1(blob.encode()).hexdigest()[:12]
@@ -318,11 +320,11 @@ def run_property(prop, tier, seed, replay=None):
         "wall_s": round(time.time() - t0, 2),
         "violations": len(new),
     }
-    os.makedirs(os.path.join(VERIF, "evidence"), exist_ok=True)
-    tmp = os.path.join(VERIF, "evidence", prop + ".json.tmp")
+    os.makedirs(os.path.join(OUT, "evidence"), exist_ok=True)
+    tmp = os.path.join(OUT, "evidence", prop + ".json.tmp")
     with open(tmp, "w") as fh:
         json.dump(ev, fh, indent=1, default=str)
-    os.replace(tmp, os.path.join(VERIF, "evidence", prop + ".json"))
+    os.replace(tmp, os.path.join(OUT, "evidence", prop + ".json"))
     print("%s tier=%s seed=%d: %d evaluations, %d distinct non-trivial, %d sub-checks, "
           "%d new violations, %d known findings reproduced, %.1fs"
           % (prop, tier, seed, evals, nt, len(subs), len(new), len(known_lines),
